@@ -173,6 +173,22 @@ CLAIMED["C01"] = dict(
          "statement 'reads back exactly the records written'. No bounded stand-in replaces them."),
    design="4/C01 (layers L1, L2 only)", technique="contract-based deductive verification: encoder and decoder against one closed-form spec, round-trip lemmas over the two contracts")
 
+CLAIMED["C12"] = dict(
+   text=("Deductive proof of the name rules against an abstract set of live refs, on the real refname.go: validateRefname accepts a name exactly when none of its "
+         "slash-separated components is empty, '.' or '..'; hasRef answers exactly whether the resulting view (names the transaction adds, plus names the table shows and the "
+         "transaction does not delete) has the name; hasRefWithPrefix answers exactly whether the resulting view has a name below the prefix - names deleted by the "
+         "transaction are skipped, they neither end the search nor count; validateAddition accepts only if every added name is valid, has nothing below it in the resulting "
+         "view and has no ancestor directory that is a ref of the resulting view (loop invariants over the ancestor chain); validateRefRecordAddition splits the records of "
+         "the new table into sorted additions and deletions as validateAddition requires. So a transaction that deletes a and creates a/b together is judged against the "
+         "view without a."),
+   note=(TRUST + " Assumed, not proved (it is what C02/C03 state for ref iteration): an iterator handed out by Table.SeekRef yields the table's live ref names at or after "
+         "the key, each once, ascending, and reports exhaustion only when none is left (ghost stream model at the interface contracts of Table.SeekRef / iterator.Next); two "
+         "facts about byte-wise string order (a name is >= each of its prefixes; names with a common prefix form an interval); strings.Split, path.Split, strings.TrimSuffix, "
+         "sort.SearchStrings compute the abstract functions they are specified by. Not decided: completeness of validateAddition (that a legal transaction is never refused) "
+         "beyond the exactness of the two lookups; that checkAddition (trusted) hands the right view to the check - pinned-tree defect F15 (tables of one multi-table "
+         "Addition are not checked against each other) is not reported; and the induction over histories that the live set stays conflict-free."),
+   design="4/C12", technique="contract-based deductive verification: abstract live-set specification, ghost stream model for the iterator, loop invariants")
+
 NOT_APPLICABLE = {
  "C15": "relational property of two programs in two languages; no deductive verifier for C is installed and rtv reads Go SSA only (DESIGN.md section 4/C15)",
 }
